@@ -2,6 +2,7 @@
 mod checks_l;
 mod core;
 mod interpose;
+mod rig_c;
 mod rig_l;
 
 use crate::core::*;
@@ -9,7 +10,7 @@ use serde_json::{json, Value};
 use std::io::Write;
 
 fn registry() -> Vec<&'static dyn Check> {
-    vec![&checks_l::C02, &checks_l::C03, &checks_l::C05]
+    vec![&checks_l::C02, &checks_l::C03, &checks_l::C05, &rig_c::C20]
 }
 
 fn find(id: &str) -> &'static dyn Check {
